@@ -94,6 +94,10 @@ pub fn prompt(prompt_text: &str, letters: &str, default: Option<char>) -> Result
 }
 
 fn read_file(path: &Path) -> Result<String> {
+  #[cfg(ast_grep_verif)]
+  if let Some(err) = crate::verif::fs_read_fault(path) {
+    return Err(err).with_context(|| format!("Cannot read file {}", path.to_string_lossy()));
+  }
   let file_content =
     read_to_string(path).with_context(|| format!("Cannot read file {}", path.to_string_lossy()))?;
   // skip large files or empty file
